@@ -386,8 +386,103 @@ fn read_side(ctx: &mut Ctx, env: &Env) {
     }
 }
 
+/// the header is handed over as a C struct of ints: every non-zero `text` / `hcrc` counts as set, `os` and `xflags`
+/// are bytes, only the low 16 bits of `extra_len` count, an empty extra field (non-NULL, length 0) is still an extra
+/// field. The bytes written are parsed with R3 and compared with zlib-ng's for the same struct.
+fn c_int_fields(ctx: &mut Ctx, env: &Env) {
+    let body = text(12, 40);
+    let extras: [Option<(usize, u32)>; 4] = [None, Some((0, 0)), Some((5, 5)), Some((5, 0x1_0005))];
+    for text_v in [0i32, 1, 2, -1, i32::MIN] {
+        for hcrc_v in [0i32, 1, -1, 256] {
+            for os_v in [3i32, 255, 256 + 7, -1] {
+                for (ei, ex) in extras.iter().enumerate() {
+                    for time_v in [0u64, 0xFFFF_FFFF] {
+                        ctx.case(
+                            "gzhdr-c-int-fields",
+                            || format!("gz_header {{ text: {text_v}, time: {time_v:#x}, os: {os_v}, hcrc: {hcrc_v}, extra: {:?} (bytes, extra_len), name \"n\" }} ; deflate(Z_FINISH) in rooms of 7", extras[ei]),
+                            |c| unsafe {
+                                let mut outs: Vec<Vec<u8>> = vec![];
+                                for which in 0..2 {
+                                    c.exec();
+                                    let mut s = Strm::plain();
+                                    let cfg = DCfg { level: 6, strategy: 0, wbits: 15, mem_level: 8, wrap: Wrap::Gzip };
+                                    let r = if which == 0 { deflate_init::<Rs>(&mut s, &cfg) } else { deflate_init::<Ng>(&mut s, &cfg) };
+                                    if r != Z_OK {
+                                        return Err("init".into());
+                                    }
+                                    let mut extra_buf = vec![9u8, 8, 7, 6, 5];
+                                    let mut name = *b"n\0";
+                                    let mut h = Box::new(zeroed_header());
+                                    h.text = text_v;
+                                    h.time = time_v as _;
+                                    h.os = os_v;
+                                    h.hcrc = hcrc_v;
+                                    if let Some((_, len)) = ex {
+                                        h.extra = extra_buf.as_mut_ptr();
+                                        h.extra_len = *len;
+                                    }
+                                    h.name = name.as_mut_ptr();
+                                    let r = if which == 0 { Rs::deflateSetHeader(s.p(), &mut *h) } else { Ng::deflateSetHeader(s.p(), &mut *h) };
+                                    if r != Z_OK {
+                                        return Err(format!("deflateSetHeader returned {}", rc_name(r)));
+                                    }
+                                    let pin = env.ain.put(&body, true);
+                                    s.z.next_in = pin;
+                                    s.z.avail_in = body.len() as u32;
+                                    let mut out = vec![];
+                                    for _ in 0..200 {
+                                        let pout = env.aout.at_end(7);
+                                        s.z.next_out = pout;
+                                        s.z.avail_out = 7;
+                                        let ret = if which == 0 { Rs::deflate(s.p(), Z_FINISH) } else { Ng::deflate(s.p(), Z_FINISH) };
+                                        out.extend_from_slice(std::slice::from_raw_parts(pout, 7 - s.z.avail_out as usize));
+                                        if ret == Z_STREAM_END {
+                                            break;
+                                        }
+                                        if ret != Z_OK && ret != Z_BUF_ERROR {
+                                            return Err(format!("deflate returned {}", rc_name(ret)));
+                                        }
+                                    }
+                                    if which == 0 {
+                                        Rs::deflateEnd(s.p());
+                                    } else {
+                                        Ng::deflateEnd(s.p());
+                                    }
+                                    outs.push(out);
+                                }
+                                // what RFC 1952 prescribes for this struct
+                                let want = GzFields {
+                                    text: text_v != 0,
+                                    mtime: time_v as u32,
+                                    xfl: 0,
+                                    os: os_v as u8,
+                                    extra: ex.map(|(_, len)| vec![9u8, 8, 7, 6, 5][..(len & 0xffff) as usize].to_vec()),
+                                    name: Some(b"n".to_vec()),
+                                    comment: None,
+                                    hcrc: hcrc_v != 0,
+                                    hcrc_val: 0,
+                                };
+                                let cfg = DCfg { level: 6, strategy: 0, wbits: 15, mem_level: 8, wrap: Wrap::Gzip };
+                                c05::check_stream(c, &cfg, &body, &outs[0], None, Some(&want))?;
+                                if outs[0] != outs[1] {
+                                    return Err(format!("header bytes differ from zlib-ng's for the same gz_header struct: {} vs {}", hex(&outs[0][..outs[0].len().min(24)]), hex(&outs[1][..outs[1].len().min(24)])));
+                                }
+                                c.outcome(hash_bytes(&outs[0]));
+                                c.nontrivial();
+                                c.validated();
+                                Ok(())
+                            },
+                        );
+                    }
+                }
+            }
+        }
+    }
+}
+
 pub fn run(ctx: &mut Ctx) {
     let env = Env::new();
+    c_int_fields(ctx, &env);
     write_side(ctx, &env);
     read_side(ctx, &env);
 }
